@@ -22,7 +22,9 @@ META = {
              "a slice and from a reader. For B = JSON the reader half of the premise is proved on the models of serde_json's writer "
              "and reader (what was written is read back to the same events; floats under an explicit premise on ryu), and the "
              "round-trip clause is proved for the pair MessagePack/JSON: MessagePack->JSON->MessagePack reproduces what "
-             "MessagePack->MessagePack writes, for every stream of values JSON can carry. The "
+             "MessagePack->MessagePack writes, for every stream of values JSON can carry, and in the other direction, with no "
+             "premise at all, JSON->MessagePack->JSON reproduces what JSON->JSON writes (C06_json_msgpack_json; the "
+             "MessagePack->JSON composition of the two models is diffed against the implementation). The "
              "forwarding model is diffed against the real transcoder (hooks). The premise is third-party behaviour and is checked on "
              "the implementation itself, with no reference reader needed: for generated documents (common model plus each pair's "
              "extensions: nulls, non-string keys, binary, non-finite floats, 32-bit floats, TOML date-times), nesting to depth 64, "
@@ -147,6 +149,9 @@ def run(outcome, tier, seed):
         st = shared.harness_corr(outcome, "transcode", "streaming transcoder / borrowed Value", tier, seed)
         outcome.extra["forwarding_correspondence"] = {"cases": st["cases"], "value_route_cases": st.get("value_cases", 0)}
         shared.msgpack_correspondence(outcome, tier, seed, oracle=False)
+    # the JSON reader and writer models and the MessagePack -> JSON composition the round-trip theorems are about
+    import jsoncorr
+    jsoncorr.correspondence(outcome, tier, seed)
     run_oracle(outcome, tier, seed)
 
 
